@@ -54,6 +54,12 @@ _FLAGS = set(x.lower() for x in (
     "IsolateDestPort IsolateDestAddr KeepAliveIsolateSOCKSAuth").split())
 
 _V4 = re.compile(r"^(\d{1,3})\.(\d{1,3})\.(\d{1,3})\.(\d{1,3})$")
+_HOSTNAME = re.compile(r"^(?=.{1,253}$)[A-Za-z]([A-Za-z0-9-]{0,62})(\.[A-Za-z0-9]([A-Za-z0-9-]{0,62}))*$")
+
+
+def is_host_name(host):
+    """a host NAME (localhost, an FQDN), not an address literal"""
+    return bool(_HOSTNAME.match(str(host))) and not re.match(r"^[0-9.]+$", str(host))
 
 
 def split_line(line):
@@ -75,7 +81,7 @@ def split_line(line):
 
 
 def parse_first(first):
-    """reference reading of the address part of a SocksPort line ->
+    """reference reading of the address part of a SocksPort line (host = IPv4 literal or host name) ->
     ('tcp', host, port) | ('tcp6', host, port) | ('unix', path) | ('auto',) | None"""
     if first.startswith("unix:"):
         p = first[5:]
@@ -102,7 +108,9 @@ def parse_first(first):
     if ":" in first:
         host, _, port = first.rpartition(":")
         m = _V4.match(host)
-        if not m or any(int(g) > 255 for g in m.groups()):
+        if m and any(int(g) > 255 for g in m.groups()):
+            return None
+        if not m and not is_host_name(host):      # tor(1): [address:]port, the address may be a name Tor resolves
             return None
         if port == "auto":
             return ("auto",)
@@ -319,6 +327,10 @@ def selftest():
         'unix:"/a b/c" GroupWritable NoIPv6Traffic SessionGroup=4': ("unix", "/a b/c"),
         "auto": ("auto",),
         "0": ("tcp", "127.0.0.1", 0),
+        "localhost:9056 IsolateDestAddr": ("tcp", "localhost", 9056),
+        "tor.example.net:9057": ("tcp", "tor.example.net", 9057),
+        "9050\tIsolateDestAddr": ("tcp", "127.0.0.1", 9050),
+        "unix:/run/tor/socks \t WorldWritable": ("unix", "/run/tor/socks"),
     }
     for line, want in good.items():
         assert valid_line(line), line
